@@ -122,7 +122,9 @@ def oracle_c05(rec: I.Rec):
         if why == "Failed":
             ok = consumed or asked_cancel
         else:
-            ok = consumed or really_cancelled
+            # finished before the runner began to stop: not outstanding (AsyncRunner drops such a result
+            # when it is cancelled in the same instant; BlockingRunner consumes it)
+            ok = consumed or really_cancelled or fid in ctx.done_at_stop
         if not ok:
             state = "unknown to the runner's bookkeeping" if fut is None else \
                 ("still in flight" if not fut.done() else "finished, result never taken")
